@@ -1,9 +1,10 @@
-(* Extraction of the executable model for the correspondence check.  ExtrOcamlBasic only. *)
+(* Extraction of the executable model for the correspondence check.  ExtrOcamlBasic only.
+   The output directory ocaml/C15/_build/ (git-ignored) must exist: checks/c15.py and ocaml/C15/build.sh create it. *)
 From Coq Require Import ZArith List.
 From Coq Require Extraction.
 From Coq Require Import ExtrOcamlBasic.
 From C15 Require Import Model_C15.
 Extraction Language OCaml.
 Set Extraction Optimize.
-Extraction "../ocaml/C15/c15_model.ml" step init_state observe f64_is_nan Z.add Z.mul Z.opp Z.of_nat
+Extraction "../ocaml/C15/_build/c15_model.ml" step init_state observe f64_is_nan Z.add Z.mul Z.opp Z.of_nat
   conv_old conv_fixed cast_old conv_spec_fn dbl_of_bits fval_of_dbl.
